@@ -283,6 +283,22 @@ def gen_ser():
     o += "Definition sur_sub_hi : N := %d.\nDefinition sur_shift : N := %d.\nDefinition sur_sub_lo : N := %d.\nDefinition sur_add : N := %d.\n" % tuple(num(x) for x in dm.groups())
     o += "\n(* FormatterToXMLUnicode::writeCDATAChars: ']]>' is split when length - i > k *)\n"
     o += "Definition cdata_lookahead_gt : N := %d.\n" % num(cm.group(1))
+    # variants of the legacy FormatterToXML (differential oracle only; not modelled)
+    leg = strip_comments(sf.read("XMLSupport/FormatterToXML.cpp"))
+    ade = function_body(leg, r"FormatterToXML::accumDefaultEscape\s*\([^)]*\)\s*\{", "FormatterToXML::accumDefaultEscape")
+    wnc = function_body(leg, r"FormatterToXML::writeNormalizedChars\s*\([^)]*\)\s*\{", "FormatterToXML::writeNormalizedChars")
+    legacy = {
+        # 07-K-new-5: TAB/LF/CR, NEL, LSEP are written as references under XML 1.0 instead of raising an error
+        "legacy_10_legal_chars_ok": re.search(r"XalanUnicode::charNEL\s*==\s*ch", ade) is None and re.search(r"!\s*m_isXML1_1\s*&&\s*XalanUnicode::charLSEP\s*==\s*ch", ade) is None
+                                    and re.search(r"ch\s*!=\s*XalanUnicode::charCR", ade) is not None,
+        # 08-K-new-3: U+009F and (under 1.1) U+2028 are written as references
+        "legacy_11_c1_lsep_refs": re.search(r"j\s*<=\s*0x9F", leg) is not None and re.search(r"m_isXML1_1\s*==\s*true\s*&&\s*XalanUnicode::charLSEP\s*==\s*ch", ade) is not None,
+        # 09-K-new-6: the CDATA section is (re)opened after a leading unrepresentable character
+        "legacy_cdata_reopens_at_start": re.search(r"i\s*!=\s*0\s*&&\s*i\s*<\s*end\s*-\s*1", wnc) is None and re.search(r"if\s*\(\s*i\s*<\s*end\s*-\s*1\s*\)", wnc) is not None,
+    }
+    o += "\n(* variants of the legacy FormatterToXML, used by the differential oracle of props/C04.py only *)\n"
+    for k in sorted(legacy):
+        o += "Definition %s : bool := %s.\n" % (k, "true" if legacy[k] else "false")
     o += "\n(* FormatterToXMLUnicode::writeNormalizedData: CR (version 1.1: NEL, LSEP) in a comment or PI is an error *)\n"
     o += "Definition comment_eol_is_error : bool := %s.\n" % ("true" if comment_eol_is_error else "false")
     facts = {"kbuf": [k8, k16, ko], "utf8_rows": [(u, g, len(st), d) for (u, g, st, d) in rows],
